@@ -281,6 +281,36 @@ def run_write_burst(case, P):
     sim.advance(500 * US)
     sim.horizon = sim.now + 2000 * MS
     try:
+        if case.get("failed_first"):
+            # a send() that fails (peer not listening), two more payloads queued behind it, the peer comes back, resend():
+            # the failed payload is acknowledged (True) and, CE staying up, the queued ones follow - all three arrive in order
+            rx.listen = False
+            sim.advance(300 * US)
+            p0 = b"\x30" * 4
+            r0 = tx.send(p0)
+            q = [b"\x31" * 5, b"\x32" * 6]
+            rq = [tx.write(b, write_only=True) for b in q]
+            rx.listen = True
+            sim.advance(300 * US)
+            r1 = tx.resend()
+            tx.ce_pin = True
+            sim.advance(25 * MS)
+            tx.ce_pin = False
+            got = []
+            for _ in range(4):
+                if not rx.available():
+                    break
+                got.append(bytes(rx.read()))
+            want = [expected_payload(b, dyn, L, False) for b in [p0] + q]
+            if r0 is not False or rq != [True, True]:
+                res.fail(P + "/failed-send-then-queue", "send() to a deaf peer returned %r, two write(write_only=True) behind it %r" % (r0, rq))
+            elif r1 is not True:
+                res.fail(P + "/resend-result/full-fifo", "resend() with the failed payload and two queued ones in the TX FIFO returned %r, peer listening" % (r1,))
+            elif got != want:
+                res.fail(P + "/received-payloads-differ", "failed send, two queued writes, resend(): peer read %r, expected %r" % (got, want))
+            tx.flush_tx()
+            tx.clear_status_flags()
+            res.label("resend-with-full-fifo")
         for rnd, k in enumerate(case["bursts"]):
             accepted = []
             for i in range(k):
@@ -683,6 +713,9 @@ def _burst_cases(drv="full", peer="full"):
                         for spi in (8, 100):
                             yield {"burst": True, "drv": drv, "peer": peer, "bursts": [b1, b2], "aa": aa, "dyn": dyn, "L": L, "a0": "a1b2c3d4e5",
                                    "lens": [1, 5, 32, 7, 13], "mcu": {"spi": spi, "jit": 0, "seed": b1}}
+                            if aa and b1 == 1:
+                                yield {"burst": True, "drv": drv, "peer": peer, "bursts": [b2], "aa": aa, "dyn": dyn, "L": L, "a0": "a1b2c3d4e5",
+                                       "lens": [1, 5, 32, 7, 13], "mcu": {"spi": spi, "jit": 0, "seed": b1}, "failed_first": True}
     return gen
 
 
